@@ -2097,3 +2097,319 @@ func ruleSectPrSingleton(r *Run) {
 	}
 	r.Min("section_properties_appends", n, 2)
 }
+
+// ---------------------------------------------------------------------------
+// R-FIRST-ELEM (C06): `x.F[k]` with a constant k on a slice field of a model object that was not
+// built by the function itself (it may come out of the reader, which produces cells without
+// paragraphs, paragraphs without runs, …) needs len(x.F) > k established on every path: by a
+// dominating length test, or by a store of a long-enough literal / an append.  Forward
+// must-analysis per (function, path); paths are access paths with index identities.
+// ---------------------------------------------------------------------------
+
+// idxPath: access path of an address with index identities (constants by value, others by SSA name).
+func idxPath(addr ssa.Value) (ssa.Value, string) {
+	var parts []string
+	v := addr
+	for depth := 0; depth < 40; depth++ {
+		switch x := v.(type) {
+		case *ssa.FieldAddr:
+			f, _ := fieldOfAddr(x)
+			parts = append([]string{"." + f.Name()}, parts...)
+			v = x.X
+			continue
+		case *ssa.Field:
+			f, _ := fieldOfVal(x)
+			parts = append([]string{"." + f.Name()}, parts...)
+			v = x.X
+			continue
+		case *ssa.IndexAddr:
+			ix := x.Index.Name()
+			if c, ok := constInt(x.Index); ok {
+				ix = fmt.Sprint(c)
+			}
+			parts = append([]string{"[" + ix + "]"}, parts...)
+			v = x.X
+			continue
+		case *ssa.UnOp:
+			if x.Op == token.MUL {
+				v = x.X
+				continue
+			}
+		case *ssa.ChangeType:
+			v = x.X
+			continue
+		}
+		break
+	}
+	return v, v.Name() + strings.Join(parts, "")
+}
+
+type lenFlow struct {
+	fn   *ssa.Function
+	path string
+	need int64
+	in   map[*ssa.BasicBlock]bool
+}
+
+func sliceLitLen(v ssa.Value) int64 {
+	switch x := v.(type) {
+	case *ssa.Slice:
+		if al, ok := x.X.(*ssa.Alloc); ok && x.Low == nil && x.High == nil {
+			if pt, ok := al.Type().Underlying().(*types.Pointer); ok {
+				if at, ok := pt.Elem().Underlying().(*types.Array); ok {
+					return at.Len()
+				}
+			}
+		}
+	case *ssa.Call:
+		if b, ok := x.Call.Value.(*ssa.Builtin); ok && b.Name() == "append" && len(x.Call.Args) == 2 {
+			// append(x, e1..en) has at least n elements
+			return sliceLitLen(x.Call.Args[1])
+		}
+	case *ssa.MakeSlice:
+		if c, ok := constInt(x.Len); ok {
+			return c
+		}
+	}
+	return 0
+}
+
+func (lf *lenFlow) transfer(in ssa.Instruction, s bool) bool {
+	st, ok := in.(*ssa.Store)
+	if !ok {
+		return s
+	}
+	_, sp := idxPath(st.Addr)
+	if sp == lf.path {
+		return sliceLitLen(st.Val) > lf.need
+	}
+	if strings.HasPrefix(lf.path, sp) && (strings.HasPrefix(lf.path[len(sp):], ".") || strings.HasPrefix(lf.path[len(sp):], "[")) {
+		return false // an enclosing object is overwritten
+	}
+	return s
+}
+
+func (lf *lenFlow) out(b *ssa.BasicBlock) bool {
+	s := lf.in[b]
+	for _, in := range b.Instrs {
+		s = lf.transfer(in, s)
+	}
+	return s
+}
+
+// lenOfPath: v is len(load P) for the flow's path.
+func (lf *lenFlow) lenOfPath(v ssa.Value) bool {
+	c, ok := v.(*ssa.Call)
+	if !ok {
+		return false
+	}
+	if b, ok := c.Call.Value.(*ssa.Builtin); !ok || b.Name() != "len" {
+		return false
+	}
+	ld, ok := c.Call.Args[0].(*ssa.UnOp)
+	if !ok || ld.Op != token.MUL {
+		return false
+	}
+	_, sp := idxPath(ld.X)
+	return sp == lf.path
+}
+
+func (lf *lenFlow) edgeFact(from, to *ssa.BasicBlock) bool {
+	s := lf.out(from)
+	if s || len(from.Instrs) == 0 {
+		return s
+	}
+	iff, ok := from.Instrs[len(from.Instrs)-1].(*ssa.If)
+	if !ok || from.Succs[0] == from.Succs[1] {
+		return s
+	}
+	bin, ok := iff.Cond.(*ssa.BinOp)
+	if !ok {
+		return s
+	}
+	op, x, y := bin.Op, bin.X, bin.Y
+	if !lf.lenOfPath(x) && lf.lenOfPath(y) {
+		// k < len  ≡  len > k
+		x, y = y, x
+		switch op {
+		case token.LSS:
+			op = token.GTR
+		case token.LEQ:
+			op = token.GEQ
+		case token.GTR:
+			op = token.LSS
+		case token.GEQ:
+			op = token.LEQ
+		}
+	}
+	if !lf.lenOfPath(x) {
+		return s
+	}
+	// the length must have been taken after the last change of the path in this block
+	if cl := x.(*ssa.Call); cl.Block() == from {
+		for i := instrIndex(cl) + 1; i < len(from.Instrs); i++ {
+			if st, ok := from.Instrs[i].(*ssa.Store); ok {
+				if _, sp := idxPath(st.Addr); strings.HasPrefix(lf.path, sp) {
+					return s
+				}
+			}
+		}
+	} else {
+		return s
+	}
+	k, isC := constInt(y)
+	taken := to == from.Succs[0]
+	if !isC {
+		// len > i / i < len with i ≥ need known only for constants: a variable bound proves len ≥ 1
+		// when the site needs index 0 and the comparison is strict
+		if lf.need == 0 && taken && op == token.GTR {
+			return nonNegValue(y)
+		}
+		return s
+	}
+	switch op {
+	case token.GTR: // len > k
+		return taken && k >= lf.need
+	case token.GEQ: // len >= k
+		return taken && k > lf.need
+	case token.LSS: // len < k: false edge gives len >= k
+		return !taken && k > lf.need
+	case token.LEQ: // len <= k: false edge gives len > k
+		return !taken && k >= lf.need
+	case token.EQL: // len == k
+		if taken {
+			return k > lf.need
+		}
+		return k == 0 && lf.need == 0 // len != 0
+	case token.NEQ:
+		if taken {
+			return k == 0 && lf.need == 0
+		}
+		return k > lf.need
+	}
+	return s
+}
+
+// nonNegValue: an index-like value that cannot be negative (a range/loop induction variable that
+// starts at a non-negative constant and only increases, or a constant).
+func nonNegValue(v ssa.Value) bool {
+	if c, ok := constInt(v); ok {
+		return c >= 0
+	}
+	if ph, ok := v.(*ssa.Phi); ok {
+		for _, e := range ph.Edges {
+			if c, ok := constInt(e); ok {
+				if c < 0 {
+					return false
+				}
+				continue
+			}
+			bo, ok := e.(*ssa.BinOp)
+			if !ok || bo.Op != token.ADD || bo.X != ssa.Value(ph) {
+				return false
+			}
+			if c, ok := constInt(bo.Y); !ok || c < 0 {
+				return false
+			}
+		}
+		return true
+	}
+	return false
+}
+
+func newLenFlow(fn *ssa.Function, path string, need int64) *lenFlow {
+	lf := &lenFlow{fn: fn, path: path, need: need, in: map[*ssa.BasicBlock]bool{}}
+	for _, b := range fn.Blocks {
+		lf.in[b] = b.Index != 0
+	}
+	for changed := true; changed; {
+		changed = false
+		for _, b := range fn.Blocks {
+			if b.Index == 0 {
+				continue
+			}
+			v := len(b.Preds) > 0
+			for _, pr := range b.Preds {
+				if !lf.edgeFact(pr, b) {
+					v = false
+				}
+			}
+			if v != lf.in[b] {
+				lf.in[b] = v
+				changed = true
+			}
+		}
+	}
+	return lf
+}
+
+func (lf *lenFlow) at(in ssa.Instruction) bool {
+	b := in.Block()
+	s := lf.in[b]
+	for _, x := range b.Instrs {
+		if x == in {
+			return s
+		}
+		s = lf.transfer(x, s)
+	}
+	return s
+}
+
+func ruleFirstElem(r *Run) {
+	p := r.P
+	reader := buildReaderModel(p)
+	n, nFresh := 0, 0
+	for _, fn := range p.ModFuncs() {
+		if fn.Pkg == nil || fn.Pkg.Pkg.Path() != pkgDoc || reader.IsReader[fn] {
+			continue
+		}
+		flows := map[string]*lenFlow{}
+		allInstrs(fn, func(in ssa.Instruction) {
+			ia, ok := in.(*ssa.IndexAddr)
+			if !ok {
+				return
+			}
+			k, isC := constInt(ia.Index)
+			if !isC {
+				return
+			}
+			ld, ok := ia.X.(*ssa.UnOp)
+			if !ok || ld.Op != token.MUL {
+				return
+			}
+			fv, _ := fieldOfAddr(ld.X)
+			if fv == nil {
+				return
+			}
+			o := fieldOwner(p, fv)
+			if o == nil || o.Obj().Pkg() == nil || o.Obj().Pkg().Path() != pkgDoc {
+				return
+			}
+			// objects the function built itself are the library's own shapes
+			fresh := true
+			for rt := range deepRoots(p, ld.X) {
+				switch rt.(type) {
+				case *ssa.Alloc, *ssa.MakeSlice, *ssa.Const, *ssa.MakeMap:
+				default:
+					fresh = false
+				}
+			}
+			if fresh {
+				nFresh++
+				return
+			}
+			n++
+			_, path := idxPath(ld.X)
+			key := fmt.Sprintf("%s#%d", path, k)
+			lf := flows[key]
+			if lf == nil {
+				lf = newLenFlow(fn, path, k)
+				flows[key] = lf
+			}
+			r.Check("first-elem", fmt.Sprintf("%s:%s.%s[%d]", shortName(fn), o.Obj().Name(), fv.Name(), k), ia.Pos(), lf.at(ia),
+				fmt.Sprintf("%s indexes %s.%s[%d] of an object it did not build; the reader produces such objects with an empty %s, so len > %d must be established on every path (length test, or a literal/append stored first)", shortName(fn), o.Obj().Name(), fv.Name(), k, fv.Name(), k))
+		})
+	}
+	r.Count("constant_index_sites_on_received_objects", n)
+	r.Count("constant_index_sites_on_fresh_objects", nFresh)
+}
